@@ -531,3 +531,47 @@ def run_bx_types(name, depth):
         r.failures.append({'function': 'truc_type_name / table lookup', 'message': '; '.join(j['violations'][:3]), 'types_case': j['violations'],
                            'tags': ['C17'], 'props': ['C17']})
     return r
+
+
+def run_bx_determinism(name, maxlen):
+    """bounded stand-in for C19: every history within the bound replayed twice in one process, and the
+    digest of all offsets and generated texts compared between two separately started processes"""
+    r = UnitResult(name, 'bx (native execution: same request sequences replayed twice in-process and in two processes)')
+    t0 = time.time()
+    exe, err = build_bx()
+    if exe is None:
+        r.status, r.reason = INCONCLUSIVE, 'bx does not build against the current tree: %s' % err
+        return r
+    cmd = [exe, 'determinism', '--max-len', str(maxlen)]
+    r.cmd = ' '.join(cmd) + '   (run twice, digests compared)'
+    runs = []
+    for k in range(2):
+        rc, out, err, wall, to = _sh(cmd, 3600, env={'VERIF_PROCESS': str(k)})
+        try:
+            runs.append(json.loads(out))
+        except Exception:
+            r.status, r.reason = INCONCLUSIVE, 'bx determinism rc=%s: %s' % (rc, (out + err)[-800:])
+            return r
+    r.wall_s = time.time() - t0
+    a, b = runs
+    r.obligations = a['histories'] * 2 + 1
+    r.bounded = ('BOUNDED: every definition history of <= %d requests over {add a|b|c with shape 1/1, 4/4 or 0/1; remove id 0..2; close with simple or basic}; '
+                 'offsets, text rendering and generated code under three fragment selections (default, +clone, +clone+serde)' % maxlen)
+    r.extra = {'evaluations': a['histories'] * 2, 'distinct_nontrivial': a['histories'],
+               'rule': 'one evaluation = one history replayed and generated once; each history is replayed twice per process, in two processes',
+               'samples': [a.get('sample'), {'digest_process_1': a['digest'], 'digest_process_2': b['digest'], 'generated_texts_per_process': a['texts']}]}
+    r.functions = [{'kind': 'fn', 'selector': s, 'file': f, 'line': 0, 'sha256': 'executed natively (linked from /repo)'} for f, s in
+                   (('truc/src/generator/mod.rs', 'generate'), ('truc/src/record/definition/builder/native/variant/simple.rs', 'simple'),
+                    ('truc/src/record/definition/builder/native/variant/basic.rs', 'basic'))]
+    viol = a.get('violation') or b.get('violation')
+    if viol:
+        r.status = VIOLATION
+        r.reason = 'replaying a history twice in one process gives different results'
+        r.failures.append({'function': 'builder + generate', 'message': viol['clauses'][0], 'det_case': viol, 'clauses': viol['clauses'], 'tags': ['C19'], 'props': ['C19']})
+    elif a['digest'] != b['digest']:
+        r.status = VIOLATION
+        r.reason = 'two separately started processes generate different offsets or text'
+        r.failures.append({'function': 'builder + generate', 'message': 'C19: digest over all offsets and generated texts differs between two processes (%s vs %s)' % (a['digest'], b['digest']),
+                           'det_case': {'history': None, 'digests': [a['digest'], b['digest']]}, 'clauses': ['C19: cross-process digest mismatch'], 'tags': ['C19'], 'props': ['C19']})
+    r.discharged = r.obligations - len(r.failures)
+    return r
